@@ -10,6 +10,7 @@ import (
 	"testing"
 	"time"
 
+	gometrics "github.com/rcrowley/go-metrics"
 	"mosn.io/api"
 	v2 "mosn.io/mosn/pkg/config/v2"
 	"mosn.io/mosn/pkg/log"
@@ -124,7 +125,35 @@ type c16lEv struct {
 	W    uint64
 	Flag uint64
 	Th   string
-	Same bool // c/k: host object identity
+	Same bool  // c/k: host object identity
+	From int   // s: index in the host's log at which the attempt of this check was counted (the check began there)
+	TA   int64 // s: time of that attempt
+}
+
+// c16lAttempt wraps the attempt counter of the health checker: OnCheck counts the attempt right
+// before it arms the timeout of the check, so the time of the Inc is a lower bound of the moment the
+// timeout was armed (the check "begins" there, CheckHealth may be reached later if the thread is
+// delayed).
+type c16lAttempt struct {
+	gometrics.Counter
+	x *c16lExec
+}
+
+type c16lAttSnap struct {
+	t    int64
+	lens []int
+}
+
+func (a *c16lAttempt) Inc(n int64) {
+	a.Counter.Inc(n)
+	x := a.x
+	if t := vrt.Cur(); t != nil {
+		sn := c16lAttSnap{t: x.now()}
+		for _, h := range x.hosts {
+			sn.lens = append(sn.lens, len(h.ev))
+		}
+		x.att[t.ID] = sn
+	}
 }
 
 type c16lHost struct {
@@ -188,7 +217,14 @@ func (s *c16lSession) CheckHealth() bool {
 	if sc := x.c.Scripts[s.h.idx]; n < len(sc) {
 		letter = sc[n]
 	}
-	s.h.ev = append(s.h.ev, c16lEv{K: 's', T: x.now(), N: n, W: s.h.word})
+	ev := c16lEv{K: 's', T: x.now(), N: n, W: s.h.word, From: len(s.h.ev), TA: x.now()}
+	if t := vrt.Cur(); t != nil {
+		if sn, ok := x.att[t.ID]; ok {
+			ev.From, ev.TA = sn.lens[s.h.idx], sn.t
+			delete(x.att, t.ID)
+		}
+	}
+	s.h.ev = append(s.h.ev, ev)
 	res, dur, hang := c16lLetter(letter, x.c.Timeout, x.c.Interval)
 	if hang {
 		rel := s.timeouts
@@ -262,11 +298,16 @@ type c16lExec struct {
 	stats1     [5]int64
 	gauge      int64
 	otherLast  []int // per host: -1 untouched, 0 cleared, 1 set (by the environment)
+	att        map[int]c16lAttSnap
 }
 
 func (x *c16lExec) now() int64 { return int64(vrt.Now()) }
 
 var c16lSink *c16lExec
+
+// executions that ran into the step limit: after a few of them the remaining scenarios are skipped
+// (each such execution costs thousands of steps; the finding is already recorded)
+var c16lStepLimits int
 
 func init() {
 	RegisterCommonCallbacks(c16lCommonCb, types.HealthCheckCb(func(h types.Host, changed, isHealthy bool) {
@@ -324,6 +365,8 @@ func (x *c16lExec) body() {
 		return
 	}
 	x.hc = hc
+	x.att = map[int]c16lAttSnap{}
+	hc.stats.attempt = &c16lAttempt{Counter: hc.stats.attempt, x: x}
 	x.stats0 = x.readStats()
 	for i := range c.Scripts {
 		h := &c16lHost{x: x, idx: i, addr: fmt.Sprintf("127.0.0.1:%d", 11616+i)}
@@ -449,7 +492,12 @@ func (x *c16lExec) judge(r *vrt.Result, outcome *strings.Builder) []c16lFinding 
 		return out
 	}
 	if r.StepLimit {
-		add("loop: execution does not terminate (step limit)", r.StepLimitStack)
+		c16lStepLimits++
+		if x.stopped {
+			add("after Stop: the sessions keep checking for ever (execution hits the step limit)", r.StepLimitStack)
+		} else {
+			add("loop: execution does not terminate (step limit)", r.StepLimitStack)
+		}
 		return out
 	}
 	if r.Diverged != "" {
@@ -662,15 +710,26 @@ func (x *c16lExec) judge(r *vrt.Result, outcome *strings.Builder) []c16lFinding 
 				anomaly("loop rounds: next check started although the previous check was never counted", sg)
 			}
 		}
+		// a check begins where its attempt was counted (From), which may be before CheckHealth is reached
+		begins := map[int]c16lEv{}
 		for _, e := range h.ev {
-			switch e.K {
-			case 's':
-				totalStarts++
+			if e.K == 's' {
+				begins[e.From] = e
+			}
+		}
+		opened := -1
+		for i, e := range h.ev {
+			if b, ok := begins[i]; ok && b.N != opened {
 				if cur != nil {
 					cur.closedNext = true
 				}
 				closeSeg(cur)
-				cur = &seg{n: e.N, start: e.T}
+				cur = &seg{n: b.N, start: b.TA}
+				opened = b.N
+			}
+			switch e.K {
+			case 's':
+				totalStarts++
 				if afterX {
 					add("after Stop: a new check is started when everything had come to rest", where+fmt.Sprintf(" check %d at t=%v", e.N+1, time.Duration(e.T)))
 				}
@@ -821,7 +880,10 @@ func c16lPat(p []c16lEv) string {
 // driver
 
 func c16lRun(p *vreport.Part, c c16lCase, replay bool) (complete bool, execs int) {
-	opts := vrt.Options{Bound: c.Bound, Delay: c.Delay, MaxSteps: 20000, MaxExecs: c.MaxExecs}
+	opts := vrt.Options{Bound: c.Bound, Delay: c.Delay, MaxSteps: 6000, MaxExecs: c.MaxExecs}
+	if c16lStepLimits >= 8 && !replay {
+		return false, 0
+	}
 	if replay {
 		opts.Replay = true
 		opts.Prefix = c.Choices
@@ -830,8 +892,14 @@ func c16lRun(p *vreport.Part, c c16lCase, replay bool) (complete bool, execs int
 	var x *c16lExec
 	st := vrt.Explore(opts, func() {
 		x = &c16lExec{c: c}
+		if c16lStepLimits >= 8 && !replay {
+			return
+		}
 		x.body()
 	}, func(r *vrt.Result) {
+		if c16lStepLimits >= 8 && !replay {
+			return
+		}
 		p.Eval()
 		var oc strings.Builder
 		fs := x.judge(r, &oc)
